@@ -29,6 +29,7 @@ func keepFields(r M, s fieldSet) M {
 type Projection struct {
 	SkipPreamble bool // the property does not judge startup/auth/parameters (preamble rule)
 	Global       bool // keep the "global parameter map after the run" event
+	Wire         bool // keep the raw-wire facts of a TLS session (every server write is TLS records)
 	Intact       bool // keep the "everything retained is intact" event
 	Recv    map[string]fieldSet // per backend message type; "*" = default
 	Cb      map[string]fieldSet // per callback name; "*" = default
@@ -108,6 +109,9 @@ var Projections = map[string]*Projection{
 	// retention: only whether everything handed to callbacks so far is intact
 	"C18": {Intact: true, Recv: map[string]fieldSet{"*": kinds},
 		Cb: map[string]fieldSet{"*": fs("q", "def", "intact", "ret")}},
+	// TLS upgrade: reply kinds inside and outside the TLS session, raw-wire facts, callbacks
+	"C11": {Wire: true, Recv: map[string]fieldSet{"*": kinds, "ssl": fs("b"), "R": fs("code")},
+		Cb: map[string]fieldSet{"*": fs("q", "def")}},
 	"C20": {SkipPreamble: true, Recv: map[string]fieldSet{"*": kinds, "t": fs("n", "wf")},
 		Cb: map[string]fieldSet{"*": fs("q", "def")}},
 	"C09": {SkipPreamble: true, Recv: map[string]fieldSet{"*": kinds, "T": fs("n", "oids", "fmts"), "D": fs("n", "cells")},
